@@ -30,6 +30,7 @@ def unit_groups(root, tier):
         parts = b.split("_")
         name = "drv_" + parts[1]
         g.setdefault(name, []).append(p)
+    g["wlcompile"] = [p for p in tests if p.endswith("/worklists-compile.cpp")]
     g["core"] = src + tests + [p for k, v in sorted(g.items()) if k.startswith("drv_")
                                for p in v if os.path.basename(p).startswith("core_")]
     g["dist"] = (sorted(glob.glob(os.path.join(root, "libdist/src/*.cpp"))) +
